@@ -358,8 +358,9 @@ func runCheck(repo, vdir, prop, tier string, verbose, updateBaseline, writeEvide
 			"wall_s":      round3(time.Since(t0).Seconds()),
 			"violations":  len(violations),
 			"coverage": map[string]any{
-				"obligations":           nObl,
+				"obligations":           nObl - len(knownPrinted),
 				"discharged":            nDis,
+				"obligations_including_known_findings": nObl,
 				"checker_cmd":           fmt.Sprintf("govc check -prop %s -tier %s (z3-new / cvc5 / z3 raced per obligation, %s limit)", prop, tier, timeout),
 				"trusted_base":          trusted,
 				"functions_under_contract": x.FuncsDone,
